@@ -675,8 +675,122 @@ def nested_stream(ctx, res, n):
                 res.disagree("C10.nested-render", case, impl=got, model=r)
 
 
+def extension_mask_stream(ctx, res):
+    """the mask meets the extension points: (a) a sensitive field whose VALUE is what its read hook `__getval__` gives (a reference
+    resolved on read) is masked to the length of that value, and a non-sensitive one is rendered as that value; (b) a user-defined file
+    format that keeps state on its instance writes the masked rendering — an unmasked `dumps` before it leaves nothing behind;
+    (c) instances of a config-type subclass that are FALSY (`__bool__` / `__len__`) are masked like any other, directly in a list and
+    below nested containers"""
+    import ext
+    import cincoconfig as cc
+    from cincoconfig.core import ConfigFormat
+    # (a)
+    table = {"$DB_PASSWORD": "resolved-secret-of-24-ch", "$REGION": "eu-central-1", "$TOK": "four"}
+
+    class RefField(cc.StringField):
+        def __getval__(self, cfg):
+            raw = super().__getval__(cfg)
+            return table.get(raw, raw)
+    node = cc.Schema()
+    node.region = RefField(default="$REGION")
+    node.secret = RefField(default="$TOK", sensitive=True)
+    N = cc.make_type(node, "ExtMaskNode")
+    s = cc.Schema()
+    s.db.password = RefField(default="$DB_PASSWORD", sensitive=True)
+    s.nodes = cc.ListField(N, default=lambda: [])
+    cfg = s()
+    cfg.nodes = [{}]
+    for mask in ("*", "#", "<hidden>"):
+        case = {"stream": "extension-mask", "what": "read-hook", "mask": mask}
+        res.case(stable(case), kind="extension-mask:read-hook")
+        t = cfg.to_tree(sensitive_mask=mask)
+        want_pw = mask * 24 if len(mask) == 1 else mask
+        want_tok = mask * 4 if len(mask) == 1 else mask
+        if t["db"]["password"] != want_pw or t["nodes"][0]["secret"] != want_tok or t["nodes"][0]["region"] != "eu-central-1" or "resolved-secret" in repr(t):
+            res.violate("C10:mask-length", "a sensitive field with a read hook of its own is not masked to the length of its value (or a non-sensitive one is not rendered as its value)",
+                        dict(case, got=[t["db"]["password"], t["nodes"][0]["secret"], t["nodes"][0]["region"]]))
+    # (b)
+    class LinesFormat(ConfigFormat):
+        def __init__(self, **kw):
+            self.lines = []
+
+        def dumps(self, config, tree):
+            def walk(prefix, v):
+                if isinstance(v, dict):
+                    for k, x in v.items():
+                        walk(prefix + [str(k)], x)
+                elif isinstance(v, list):
+                    for i, x in enumerate(v):
+                        walk(prefix + [str(i)], x)
+                else:
+                    self.lines.append("%s=%r" % (".".join(prefix), v))
+            walk([], tree)
+            return "\n".join(self.lines).encode()
+
+        def loads(self, config, content):
+            return {}
+    try:
+        ConfigFormat.register("c10lines", LinesFormat)
+    except Exception:  # noqa
+        pass
+    u = cc.Schema()
+    u.user = cc.StringField(default="alice")
+    u.token = cc.StringField(sensitive=True, default="tok-ALICE-0001")
+    u.sub.token = cc.StringField(sensitive=True, default="tok-BOB-0002")
+    ucfg = u()
+    for mask in ("*", "<hidden>", ""):
+        case = {"stream": "extension-mask", "what": "stateful-format", "mask": mask}
+        res.case(stable(case), kind="extension-mask:stateful-format")
+        try:
+            plain = ucfg.dumps(format="c10lines")
+            masked = ucfg.dumps(format="c10lines", sensitive_mask=mask)
+        except Exception as e:  # noqa
+            res.violate("C10:leak-in-document", "a registered user-defined format raised %s" % type(e).__name__, dict(case, error=str(e)[:100]))
+            continue
+        if b"tok-ALICE" in masked or b"tok-BOB" in masked or len(masked.splitlines()) != len(plain.splitlines()) or b"tok-ALICE" not in plain:
+            res.violate("C10:leak-in-document", "a masked document written by a registered user-defined format contains sensitive values (an earlier rendering was kept on a shared "
+                        "formatter object)", dict(case, lines=len(masked.splitlines()), expected_lines=len(plain.splitlines())))
+    # (c)
+    acct = cc.Schema()
+    acct.user = cc.StringField()
+    acct.token = cc.StringField(sensitive=True)
+    A = cc.make_type(acct, "ExtMaskAcct")
+
+    class Falsy(A):
+        def __bool__(self):
+            return False
+
+    class Empty(A):
+        def __len__(self):
+            return 0
+    for cls in (Falsy, Empty):
+        r = cc.Schema()
+        r.direct = cc.ListField(cls, default=lambda: [])
+        r.shifts = cc.ListField(cc.ListField(cls), default=lambda: [])
+        r.teams = cc.DictField(cc.StringField(), cc.ListField(cls), default=dict)
+        r.site.rota = cc.ListField(cc.ListField(cls), default=lambda: [])
+        rc = r()
+        mk = lambda n: cls(user="u%d" % n, token="tok-%04d-secret" % n)   # noqa
+        rc.direct = [mk(1)]
+        rc.shifts = [[mk(2), mk(3)]]
+        rc.teams = {"ops": [mk(4)]}
+        rc.site.rota = [[mk(5)]]
+        for mask in ("*", "<hidden>", ""):
+            case = {"stream": "extension-mask", "what": "falsy-config-type", "class": cls.__name__, "mask": mask}
+            res.case(stable(case), kind="extension-mask:falsy")
+            try:
+                t = rc.to_tree(sensitive_mask=mask)
+                doc = rc.dumps(format="json", sensitive_mask=mask)
+            except Exception as e:  # noqa
+                res.violate("C10:leak-in-tree", "rendering falsy configuration objects raised %s" % type(e).__name__, dict(case, error=str(e)[:100]))
+                continue
+            leaked = [x for x in ("tok-%04d-secret" % n for n in range(1, 6)) if x in repr(t) or x.encode() in doc]
+            if leaked:
+                res.violate("C10:leak-in-tree", "the sensitive value of a configuration object that is falsy (its class defines __bool__ / __len__) appears under a mask", dict(case, leaked=leaked))
+
 def run(ctx, n_quick=150, n_thorough=5000):
     res = Result()
+    guard(res, "C10", extension_mask_stream, ctx, res)
     guard(res, "C10", lambda: P.run_stream(ctx, res, "C10", ctx.n(n_quick, n_thorough), oracle, gen_ops=gen_ops, ops_len=(3, 8), schema_gen=gen_schema))
     guard(res, "C10", marker_stream, ctx, res, ctx.n(8, 200))
     guard(res, "C10", nested_stream, ctx, res, ctx.n(300, 8000))
